@@ -84,3 +84,85 @@ Proof.
                                             gd lp np GenC05.lower_skip_false_guard).
 Qed.
 Print Assumptions C01_generator_order_admissible.
+
+(* ------------------------------------------------------------------ call argument binding.
+   The interpreter runs a call as the Python call  callee( *positional, **keywords )  -- Python's own binding,
+   specified by CallBind.py_bind -- while generated code resolves a call of a built-in when it is generated, with
+   dagrt.utils.resolve_args (CallBind.resolve_args mirrors it statement by statement; harness/tr/bind.py pins
+   the text), against the arg_names / default_dict of the function registry entry. *)
+From Coq Require Permutation.
+From Dagrt Require CallBind CallBindProofs GenBind.
+
+(* (a) resolve_args implements Python's binding rule: for ALL parameter lists without repetition, defaults,
+   positional values and keyword arguments without repetition, it returns a list iff binding succeeds, and
+   then it is the list of the values in parameter order *)
+Theorem C01_bind_resolve_is_python : forall (V : Type) (defaults : list (string * V)) arg_names positional keywords,
+  NoDup arg_names -> NoDup (map fst keywords) ->
+  forall l, CallBind.resolve_args arg_names defaults positional keywords = CallBind.Ok l <->
+            CallBind.py_bind arg_names defaults positional keywords = CallBind.Ok l.
+Proof. exact (@CallBindProofs.resolve_args_is_py_bind). Qed.
+Print Assumptions C01_bind_resolve_is_python.
+
+(* (b) both raise (a TypeError, whatever its message) in exactly the same situations, namely when the call
+   is not well formed: more positional values than parameters, a keyword that is not a parameter or names a
+   parameter already given positionally, or a parameter with neither value nor default *)
+Theorem C01_bind_fail_alike : forall (V : Type) (defaults : list (string * V)) arg_names positional keywords,
+  NoDup arg_names -> NoDup (map fst keywords) ->
+  ((exists e, CallBind.resolve_args arg_names defaults positional keywords = CallBind.Err e) <->
+   ~ CallBind.call_ok arg_names defaults positional keywords) /\
+  ((exists e, CallBind.py_bind arg_names defaults positional keywords = CallBind.Err e) <->
+   ~ CallBind.call_ok arg_names defaults positional keywords).
+Proof. exact (@CallBindProofs.bind_fail_iff). Qed.
+Print Assumptions C01_bind_fail_alike.
+
+(* (c) the legal call forms: giving every parameter exactly once, the first k positionally and the others by
+   keyword in any order, hands the values over in parameter order -- by both rules, for every split k *)
+Theorem C01_bind_legal_call_forms :
+  forall (V : Type) (defaults : list (string * V)) arg_names (vs : list V) k keywords,
+  NoDup arg_names -> List.length vs = List.length arg_names -> k <= List.length arg_names ->
+  Permutation.Permutation keywords (combine (skipn k arg_names) (skipn k vs)) ->
+  CallBind.resolve_args arg_names defaults (firstn k vs) keywords = CallBind.Ok vs /\
+  CallBind.py_bind arg_names defaults (firstn k vs) keywords = CallBind.Ok vs.
+Proof. exact (@CallBindProofs.resolve_args_legal_split). Qed.
+Print Assumptions C01_bind_legal_call_forms.
+
+(* what the callee receives: the generated call  callee( *resolve_args(...) )  binds the callee's parameters to
+   the same values as the interpreter's call  callee( *positional, **keywords ), provided the registry entry
+   declares the callee's parameter names and defaults; and one fails iff the other does *)
+Theorem C01_bind_backends_alike : forall (V : Type) (defaults : list (string * V)) arg_names positional keywords,
+  NoDup arg_names -> NoDup (map fst keywords) ->
+  match CallBind.resolve_args arg_names defaults positional keywords with
+  | CallBind.Ok l => CallBind.py_bind arg_names defaults positional keywords = CallBind.Ok l /\
+                     CallBind.py_bind arg_names defaults l nil = CallBind.Ok l
+  | CallBind.Err _ => exists e, CallBind.py_bind arg_names defaults positional keywords = CallBind.Err e
+  end.
+Proof. exact (@CallBindProofs.backends_bind_alike). Qed.
+Print Assumptions C01_bind_backends_alike.
+
+(* that proviso, for the built-ins of the working tree (GenBind.builtin_table: one row per entry of the list in
+   function_registry._make_bfr, a finite table regenerated on every run -- 13 rows today, and never fewer than
+   the 13 documented built-ins): the declared arg_names are duplicate-free and equal, in order, the parameter
+   names of the function the interpreter calls (builtins_python.builtins[identifier]), the defaults agree, and
+   a pattern "self._builtin_X({args})" calls the copy of that same function *)
+Theorem C01_bind_builtin_names :
+  (forall id, In id CallBind.documented_builtins ->
+     exists r, In r GenBind.builtin_table /\ CallBind.b_id r = id) /\
+  forall r, In r GenBind.builtin_table ->
+    NoDup (CallBind.b_arg_names r) /\
+    CallBind.b_arg_names r = CallBind.b_impl_params r /\
+    CallBind.b_defaults r = CallBind.b_impl_defaults r /\
+    (forall impl, CallBind.b_pattern r = CallBind.PSelfBuiltin impl -> impl = CallBind.b_interp_impl r).
+Proof. exact CallBindProofs.builtin_names_agree. Qed.
+Print Assumptions C01_bind_builtin_names.
+
+(* hence, for every built-in of that table and EVERY call of it: resolving against the registry entry and
+   binding by Python's rule against the interpreter's callee give the same argument list, or both raise *)
+Theorem C01_bind_builtins : forall (V : Type) (ev : string -> V) r,
+  In r GenBind.builtin_table ->
+  forall positional keywords, NoDup (map fst keywords) ->
+    CallBind.forget (CallBind.resolve_args (CallBind.b_arg_names r)
+                       (CallBind.eval_defaults ev (CallBind.b_defaults r)) positional keywords) =
+    CallBind.forget (CallBind.py_bind (CallBind.b_impl_params r)
+                       (CallBind.eval_defaults ev (CallBind.b_impl_defaults r)) positional keywords).
+Proof. exact CallBindProofs.builtins_bind_alike. Qed.
+Print Assumptions C01_bind_builtins.
